@@ -68,6 +68,11 @@ KNOWN = {
 # serialisation of snapshots (controls come from a fresh interpreter as JSON)
 # ---------------------------------------------------------------------------
 def ser(x):
+    """JSON-able canonical form: every number becomes the exact fraction it stands for"""
+    if isinstance(x, bool) or x is None or isinstance(x, str):
+        return x
+    if isinstance(x, (int, float)):
+        x = F(x)
     if isinstance(x, F):
         return f"F:{x.numerator}/{x.denominator}"
     if isinstance(x, Ex):
@@ -400,13 +405,13 @@ class Rig:
         for i, day in enumerate(script):
             self.set_date(i)
             for op in day:
-                trace.append((list(op[:2]), self.do(op)))
-            trace.append(("state", self.picture()))
+                trace.append([str(op[0]) + ":" + str(op[1]) if len(op) > 1 else str(op[0]), self.do(op)])
+            trace.append(["state", self.picture()])
             try:
                 with quiet():
                     self.end()
             except Exception as ex:
-                trace.append(("end", "raised " + err_text(ex)))
+                trace.append(["end", "raised " + err_text(ex)])
         return trace
 
 
@@ -1228,7 +1233,7 @@ def run_case(case, specs, controls, pristine):
         zoo = defaults_zoo()
         zoo0 = zoo_picture(zoo)
         sib = build(spec, p)
-        sib0 = ser(sib.picture())
+        sib0 = sib.picture()
         a, b = build(spec, p), build(spec, p)
         leaked = check_defaults(pristine)
         if leaked:
@@ -1266,29 +1271,29 @@ def run_case(case, specs, controls, pristine):
             if d:
                 problems.append(f"as-constructed: snapshot of the component {label} differs from a twin constructed with the values: {fmt_diffs(d)}")
         tt = twin.drive(script)
-        out["nontrivial"] = ser(tt) != ser(trace0) and bool(ovs[0])
+        out["nontrivial"] = bool(ovs[0]) and bool(diff(tt, trace0, 0.0, limit=1))
         for label, rig in (("overridden once", a), ("overridden three times", b)):
             tr = rig.drive(script)
-            d = diff(ser(tr), ser(tt), 0.0)
+            d = diff(tr, tt, 0.0)
             if d:
                 problems.append(f"behaviour of the component {label} differs from the twin's: {fmt_diffs(d)} (op index in path; script in payload)")
         # ---- (c) bystanders
         dz = diff(zoo0, zoo_picture(zoo), 0.0)
-        ds = diff(sib0, ser(sib.picture()), 0.0)
+        ds = diff(sib0, sib.picture(), 0.0)
         if (dz or ds) and not mutated:
             problems.append(f"cross-talk: existing components changed: {fmt_diffs(dz + ds)}")
         heal(mutated, pristine)
         dz = diff(zoo0, zoo_picture(zoo), 0.0)
-        ds = diff(sib0, ser(sib.picture()), 0.0)
+        ds = diff(sib0, sib.picture(), 0.0)
         if (dz or ds) and mutated:
             problems.append(f"cross-talk beyond the shared default arguments {[k for k, _ in mutated]}: {fmt_diffs(dz + ds)}")
-        d = diff(ser(sib.drive(script)), ser(trace0), 0.0)
+        d = diff(sib.drive(script), trace0, 0.0)
         if d:
             problems.append(f"cross-talk: behaviour of a same-class component that existed before the override changed: {fmt_diffs(d)}")
         d = diff(controls[case["polset"]]["zoo"], zoo_picture(defaults_zoo()), 0.0)
         if d:
             problems.append(f"cross-talk: components constructed afterwards with default arguments differ from a fresh interpreter: {fmt_diffs(d)}")
-        d = diff(ser(build(spec, p).drive(script)), ser(trace0), 0.0)
+        d = diff(build(spec, p).drive(script), trace0, 0.0)
         if d:
             problems.append(f"cross-talk: behaviour of a same-class component constructed afterwards changed: {fmt_diffs(d)}")
         d = diff(const0, constants_picture(), 0.0)
